@@ -13,6 +13,7 @@ func init() {
 	vRegister("ZZ_C05_Sync", ZZ_C05_Sync)
 	vRegister("ZZ_C0405_Par", ZZ_C0405_Par)
 	vRegister("ZZ_C05_Pending", ZZ_C05_Pending)
+	vRegister("ZZ_C04_Pending", ZZ_C04_Pending)
 	vRegister("ZZ_C05_WheelPending", ZZ_C05_WheelPending)
 }
 
@@ -66,6 +67,16 @@ func ZZ_C05_Pending() {
 	zzQuiescentAudit(s.env.c, "c05p", false, true)
 }
 
+// ZZ_C04_Pending: as ZZ_C05_Pending (several writes recorded before maintenance runs), audited for C04.
+func ZZ_C04_Pending() {
+	s := zzRunSym("c04p", zzCfgFromParams())
+	s.env.ex.Run()
+	s.env.c.CleanUp()
+	s.env.ex.Run()
+	s.syncEvents("c04p.drain")
+	zzQuiescentAudit(s.env.c, "c04p", true, false)
+}
+
 // zzQuiescentAudit checks C04 (prefix c04) or C05 (prefix c05) on a quiescent cache.
 func zzQuiescentAudit(c *Cache[int, int], tag string, wantC04, wantC05 bool) {
 	impl := c.cache
@@ -88,6 +99,10 @@ func zzQuiescentAudit(c *Cache[int, int], tag string, wantC04, wantC05 bool) {
 	}
 	if wantC04 {
 		vAssert(sum <= maximum, tag+".total_weight_within_maximum_at_quiescence")
+		if impl.withEviction {
+			// the eviction loop's guard is the policy's running total: it must be the true total of what is present
+			vAssert(impl.evictionPolicy.weightedSize == sum, tag+".policy_running_total_equals_weight_of_entries_present")
+		}
 	}
 	if impl.isWeighted {
 		vAssert(c.WeightedSize() == sum, tag+".weighted_size_equals_sum_of_weights")
